@@ -242,7 +242,10 @@ impl SchemaChangeEvent {
                     SchemaChangeEventParseError::ArgumentCountParseError(err.into())
                 })?;
 
-                let mut argument_vector = Vec::with_capacity(number_of_arguments as usize);
+                // Each argument is a [string] of at least 2 bytes:
+                // do not reserve more than the buffer can hold.
+                let mut argument_vector =
+                    Vec::with_capacity((number_of_arguments as usize).min(buf.len() / 2));
 
                 for _ in 0..number_of_arguments {
                     argument_vector.push(
@@ -267,7 +270,10 @@ impl SchemaChangeEvent {
                     SchemaChangeEventParseError::ArgumentCountParseError(err.into())
                 })?;
 
-                let mut argument_vector = Vec::with_capacity(number_of_arguments as usize);
+                // Each argument is a [string] of at least 2 bytes:
+                // do not reserve more than the buffer can hold.
+                let mut argument_vector =
+                    Vec::with_capacity((number_of_arguments as usize).min(buf.len() / 2));
 
                 for _ in 0..number_of_arguments {
                     argument_vector.push(
